@@ -7,7 +7,7 @@
    Hypotheses: pixel scales non-zero (the code divides the origin by them); positive where a derived pixel scale must be
    non-zero (overlay).  Index-valued statements need no hypothesis at all. *)
 From Coq Require Import ZArith QArith List Bool Reals Lra.
-From PAV Require Import Base.Res Base.NumOps Model.C12 Proofs.C12.
+From PAV Require Import Base.Res Base.NumOps Model.C12 Proofs.C12 Proofs.C12Reloc.
 Import ListNotations.
 Local Open Scope R_scope.
 
@@ -169,6 +169,14 @@ Theorem C12_datasets_keep_the_frame :
   from_mask (translate d (i_data ds)) = shift d (dataset_grid ds)).
 Proof. exact (conj apply_mask_translates (conj apply_noise_scaling_translates (conj trimmed_translates (conj simulate_translates (conj s2n_limited_translates x_dataset_grid_translates))))). Qed.
 
+(* border relocation (relocated_grid_via_jit_from; BorderRelocator.relocated_grid_from takes the border from the grid itself by
+   index): relocating a translated grid against the translated border gives the translated result *)
+Theorem C12_relocation_translates :
+  (forall (d : @pt ROps) (g bg : list (@pt ROps)), relocate (shift d g) (shift d bg) = shift d (relocate g bg)) /\
+  (forall (d : @pt ROps) (idx : list nat) (g : list (@pt ROps)), Forall (fun i => (i < length g)%nat) idx ->
+     relocated_grid_from idx (shift d g) = shift d (relocated_grid_from idx g)).
+Proof. exact (conj relocate_translates relocated_grid_from_translates). Qed.
+
 (* the seven call sites as they were before the repairs (fixes/C12_*.diff, now committed in /repo): each violates the law
    with origin (0,0), d = (1,0) *)
 Theorem C12_dropped_origin_call_sites_refuted :
@@ -227,4 +235,5 @@ Print Assumptions C12_overlay_mesh_translates.
 Print Assumptions C12_hilbert_geometry_translates.
 Print Assumptions C12_rect_mesh_and_mapper.
 Print Assumptions C12_datasets_keep_the_frame.
+Print Assumptions C12_relocation_translates.
 Print Assumptions C12_dropped_origin_call_sites_refuted.
